@@ -63,6 +63,9 @@ Sigs ==
     [] SigsName = "g_nr" -> << [pk |-> <<"v", "r">>, ret |-> "n"] >>
     [] SigsName = "g_ur" -> << [pk |-> <<"v", "r">>, ret |-> "u"] >>
     [] SigsName = "g_nr_u1" -> << [pk |-> <<"v", "r">>, ret |-> "n"], [pk |-> <<"v">>, ret |-> "u"] >>
+    [] SigsName = "g_nrv" -> << [pk |-> <<"v", "r", "v">>, ret |-> "n"] >>
+    [] SigsName = "g_urv" -> << [pk |-> <<"v", "r", "v">>, ret |-> "u"] >>
+    [] SigsName = "g_nr_nr" -> << [pk |-> <<"v", "r">>, ret |-> "n"], [pk |-> <<"v", "r">>, ret |-> "n"] >>
     [] SigsName = "g_nrv_nr" -> << [pk |-> <<"v", "r", "v">>, ret |-> "n"], [pk |-> <<"v", "r">>, ret |-> "n"] >>
 Guarded == SigsName \notin {"none", "u1", "u2", "n1", "u0", "u1n1", "u1u2", "n0u2"}
 NR == Len(Sigs)
